@@ -25,6 +25,7 @@ pub fn add(v: &mut Vec<sut::Cfg>) {
     toy_cfg!(v, U16, U7, "qt", add_ctr32, add_ctr64, add_ctr128, add_belt);
     // a backend much wider than the block is long (width >= block size + 3)
     toy_cfg!(v, U2, U7, "qt");
+    toy_cfg!(v, U4, U7, "qt", add_ctr32);
     // real ciphers needed by the oracle self-test of every run ('o'); part of the thorough set
     real_cfg!(v, aes::Aes128, "Aes128", "qot", add_ctr32, add_ctr64, add_ctr128, add_belt);
     real_cfg!(v, belt_block::BeltBlock, "BeltBlock", "ot", add_ctr32, add_ctr64, add_ctr128, add_belt);
